@@ -134,6 +134,13 @@ def make_harness(variant):
         def array_equal(e, a, b):
             return SB(eq)
 
+        close = z3.Bool("allclose(L,R)")
+
+        def allclose(e, a, b, *args, **kw):
+            # a tolerance test is implied by exact equality and implies nothing: code that identifies L with R on its strength is refuted by L != R, allclose(L, R)
+            e.assume(z3.Implies(eq, close))
+            return SB(close)
+
         def result_type(e, a, b):
             return DT(("result_type", a.tag, b.tag))
 
@@ -162,7 +169,7 @@ def make_harness(variant):
                 raise Unsupported(f"super().{name}")
 
         eng.globals.update({
-            "np": Namespace("np", {"array_equal": Builtin("np.array_equal", array_equal), "result_type": Builtin("np.result_type", result_type),
+            "np": Namespace("np", {"array_equal": Builtin("np.array_equal", array_equal), "allclose": Builtin("np.allclose", allclose), "result_type": Builtin("np.result_type", result_type),
                                    "iscomplexobj": Builtin("np.iscomplexobj", iscomplexobj), "isrealobj": Builtin("np.isrealobj", isrealobj)}),
             "super": Builtin("super", lambda e: Super()),
         })
